@@ -104,6 +104,12 @@ func setup(dir string, tmpl *cache.Cache, s scenario) {
 	case "S6-same-content-under-other-id-and-overwrite":
 		put(2, nc)
 		put(s.Target, content('O', s.Size+1))
+	case "S6-same-content-under-other-id-after-repair":
+		// the shared output was damaged once and repaired by a later Put, all in
+		// this process (anything remembered about the file must not outlive that)
+		put(2, nc)
+		os.WriteFile(fileOf(dir, out, "d"), bytes.Repeat([]byte("#"), len(nc)), 0o666)
+		put(2, nc)
 	case "S3-partial-output-0":
 		os.WriteFile(fileOf(dir, out, "d"), nil, 0o666)
 	case "S3-partial-output-1":
@@ -141,7 +147,7 @@ func scenarios(th bool) []scenario {
 			out = append(out, scenario{st, sz, false, 0})
 		}
 	}
-	for _, st := range []string{"S2-overwrite-empty", "S6-same-content-under-other-id", "S6-same-content-under-other-id-and-overwrite"} {
+	for _, st := range []string{"S2-overwrite-empty", "S6-same-content-under-other-id", "S6-same-content-under-other-id-and-overwrite", "S6-same-content-under-other-id-after-repair"} {
 		for _, sz := range []int{1, 40, big} {
 			out = append(out, scenario{st, sz, false, 0})
 		}
